@@ -146,16 +146,10 @@ Theorem C16_subareas_spec :
 Proof. exact subareas_spec. Qed.
 Print Assumptions C16_subareas_spec.
 
-(* Bi-linear interpolation equals the Appendix J formula
-   fl(fl(ua,uc,s2), fl(ub,ud,s2), s1): for every pair of subareas (one per
-   subsampled dimension) and every element the pair assigns.  Together with
-   C16_partition (every element is assigned by exactly one subarea per
-   dimension) and C16_subareas_spec this fixes every element.
-   Full statement (not proved): the same for a_ia <= i <= a_ib in both
-   dimensions, i.e. also read from the neighbouring subarea at a shared tie
-   point - proved in one dimension (C16_linear_spec), here only for the
-   elements a subarea assigns itself: C16_bilinear_spec_partial. *)
-Theorem C16_bilinear_spec_partial :
+(* Bi-linear interpolation, per block: every element assigned by a pair of
+   subareas (one per subsampled dimension) holds
+   fl(fl(ua,uc,s2), fl(ub,ud,s2), s1) computed from that pair's four tie points. *)
+Theorem C16_bilinear_block :
   forall tpi2 tpi1 T A2 A1 i2 i1,
   incr tpi2 -> incr tpi1 -> In A2 (subareas tpi2) -> In A1 (subareas tpi1) ->
   cov A2 i2 = true -> cov A1 i1 = true ->
@@ -165,7 +159,26 @@ Theorem C16_bilinear_spec_partial :
   Some [fl (fl (tpv2 T (a_k A2) (a_k A1)) (tpv2 T (S (a_k A2)) (a_k A1)) s2)
            (fl (tpv2 T (a_k A2) (S (a_k A1))) (tpv2 T (S (a_k A2)) (S (a_k A1))) s2) s1].
 Proof. exact bilinear_spec. Qed.
-Print Assumptions C16_bilinear_spec_partial.
+Print Assumptions C16_bilinear_block.
+
+(* Bi-linear interpolation equals the CF Appendix J formula: for every
+   interpolation subarea in each of the two subsampled dimensions (pairs of
+   consecutive tie point indices more than one apart) and every element inside
+   it, all four edges and corners included - so also where up to four
+   subareas share a tie point - the value is
+   fl(fl(ua,uc,s2), fl(ub,ud,s2), s1), s_d = (i_d - a_d)/(b_d - a_d).  No guard. *)
+Theorem C16_bilinear_spec :
+  forall tpi2 tpi1 T m2 a2 b2 i2 m1 a1 b1 i1,
+  incr tpi2 -> incr tpi1 ->
+  nth_error tpi2 m2 = Some a2 -> nth_error tpi2 (S m2) = Some b2 -> 2 <= b2 - a2 -> a2 <= i2 <= b2 ->
+  nth_error tpi1 m1 = Some a1 -> nth_error tpi1 (S m1) = Some b1 -> 2 <= b1 - a1 -> a1 <= i1 <= b1 ->
+  let s2 := (qn (i2 - a2) / qn (b2 - a2))%Q in
+  let s1 := (qn (i1 - a1) / qn (b1 - a1))%Q in
+  cell_eq (dec2 false tpi2 tpi1 T i2 i1)
+          (fl (fl (tpv2 T m2 m1) (tpv2 T (S m2) m1) s2)
+              (fl (tpv2 T m2 (S m1)) (tpv2 T (S m2) (S m1)) s2) s1).
+Proof. exact bilinear_full. Qed.
+Print Assumptions C16_bilinear_spec.
 
 Theorem C16_bilinear_example :
   exists x, dec2 false [0; 4] [0; 4; 8] [[0#1; 64#1; 128#1]; [1024#1; 2048#1; 4096#1]]%Q 1 5 = Some [x]
